@@ -74,6 +74,10 @@ pub struct OutCfg {
     /// define a handful of device attributes (default set and a private set, readable and writable, every data type)
     #[serde(default)]
     pub attrs: bool,
+    /// the control handler writes the new state of an operated output to the database from inside the callback (the usual
+    /// application pattern): BinaryOutputStatus[index] for g12, AnalogOutputStatus[index] for g41
+    #[serde(default)]
+    pub controls_update_db: bool,
 }
 
 impl OutCfg {
@@ -102,6 +106,7 @@ impl OutCfg {
             class_zero_octet_strings: true,
             restart_answer: 0,
             attrs: false,
+            controls_update_db: false,
         }
     }
 
@@ -228,6 +233,18 @@ pub struct Recorder {
     pub restart_delay: Option<RestartDelay>,
     pub freeze_result: Result<(), RequestError>,
     pub support_dead_bands: bool,
+    /// set by the driver when the control handler is to update the database: the tracker of static values and the log of
+    /// applied updates it shares with the driver, and how many such updates were made
+    pub db_on_operate: Option<DbOnOperate>,
+}
+
+pub type UpdateLog = Arc<Mutex<Vec<(u64, u64, UpdateOp, UpdateInfo)>>>;
+
+#[derive(Clone)]
+pub struct DbOnOperate {
+    pub tracker: Arc<Mutex<StaticTracker>>,
+    pub updates: UpdateLog,
+    pub count: u64,
 }
 
 impl Recorder {
@@ -247,6 +264,7 @@ impl Recorder {
             restart_delay: Some(RestartDelay::Seconds(1)),
             freeze_result: Ok(()),
             support_dead_bands: true,
+            db_on_operate: None,
         }
     }
 
@@ -483,6 +501,42 @@ macro_rules! control_support {
                     op: op_code(op_type),
                     status: status.as_u8(),
                 });
+                let db = if status == CommandStatus::Success {
+                    r.db_on_operate.as_mut().map(|d| {
+                        d.count += 1;
+                        d.clone()
+                    })
+                } else {
+                    None
+                };
+                drop(r);
+                if let Some(d) = db {
+                    let op = UpdateOp {
+                        ptype: if $g == 12 { PointType::BinaryOutputStatus } else { PointType::AnalogOutputStatus },
+                        index,
+                        value: if $g == 12 { (d.count % 2) as f64 } else { (d.count % 50) as f64 },
+                        bytes: Vec::new(),
+                        flags: 0x01,
+                        time: None,
+                        synchronized: false,
+                        update_static: true,
+                        event_mode: 1,
+                        flags_only: false,
+                    };
+                    // (the tracker is taken inside the transaction, after the lock-point hook - which takes it too - has run)
+                    let mut result = None;
+                    _database.transaction(|db| {
+                        let mut tr = d.tracker.lock().unwrap();
+                        result = Some(tr.apply(&op, db));
+                    });
+                    if let (Some((eff, info)), Some(core)) = (result, crate::verif::kernel::current()) {
+                        core.count("fault.update_inside_control_callback", 1);
+                        if core.log_enabled() {
+                            core.log(format!("  database update from the control callback: {:?} -> {:?}", eff, info));
+                        }
+                        d.updates.lock().unwrap().push((core.now_ms(), core.next_order(), eff, info));
+                    }
+                }
                 status
             }
         }
